@@ -97,7 +97,7 @@ def r2_creation(ctx, f, rep):
             for s in bl['stmts']:
                 if 'rv' in s and s['rv']['k'] == 'aggregate' and s['rv']['name'].startswith('runtime::Timer') and \
                         s['rv']['variant'] == 'ChangeSuspectToDown':
-                    sites.append((b.nname, s['span']))
+                    sites += [(nm, s['span']) for nm in f.attributed(b)]
     rep.check([s[0] for s in sites] == ['Foca::probe_random_member'], 'C11-R2', 'runtime::Timer',
               'single construction site of ChangeSuspectToDown', construct='creation-sites',
               facts={'sites': [s[0] for s in sites]})
